@@ -452,8 +452,98 @@ fn set_proofs(report: &Report, cli: &Cli) {
     });
 }
 
+/// Proofs chained on one transcript (how the statements of one credential are proven): whatever the
+/// first proof is - in particular one whose inner-product argument has a single element (one bit,
+/// a set of one) - prover and verifier must end it in the same transcript state, i.e. the second
+/// honest proof of a true statement verifies as well. Both transcript protocols, both versions.
+fn chains(report: &Report, cli: &Cli) {
+    use concordium_base::random_oracle::TranscriptProtocol;
+    let g = gens(64, cli.seed);
+    let keys = CommitmentKey::<C>::generate(&mut rng(cli.seed, 1702));
+    #[derive(Clone, Debug)]
+    enum P {
+        Range(u8, u64),
+        In(Vec<u64>, u64),
+        NotIn(Vec<u64>, u64),
+    }
+    enum Made {
+        R(RangeProof<C>),
+        I(set_membership_proof::SetMembershipProof<C>),
+        N(set_non_membership_proof::SetNonMembershipProof<C>),
+    }
+    fn prove_one<T: TranscriptProtocol>(t: &mut T, version: ProofVersion, p: &P, seed: u64, g: &Generators<C>, keys: &CommitmentKey<C>, r: &Randomness<C>) -> Option<Made> {
+        let mut rn = rng(seed, 1710);
+        match p {
+            P::Range(n, v) => prove(version, t, &mut rn, *n, 1, &[*v], g, keys, std::slice::from_ref(r)).map(Made::R),
+            P::In(s, v) => set_membership_proof::prove(version, t, &mut rn, &s.iter().map(|x| C::scalar_from_u64(*x)).collect::<Vec<_>>(), C::scalar_from_u64(*v), g, keys, r).ok().map(Made::I),
+            P::NotIn(s, v) => set_non_membership_proof::prove(version, t, &mut rn, &s.iter().map(|x| C::scalar_from_u64(*x)).collect::<Vec<_>>(), C::scalar_from_u64(*v), g, keys, r).ok().map(Made::N),
+        }
+    }
+    fn verify_one<T: TranscriptProtocol>(t: &mut T, version: ProofVersion, p: &P, made: &Made, g: &Generators<C>, keys: &CommitmentKey<C>, c: &Commitment<C>) -> bool {
+        match (p, made) {
+            (P::Range(n, _), Made::R(pr)) => verify_efficient(version, t, *n, std::slice::from_ref(c), pr, g, keys).is_ok(),
+            (P::In(s, _), Made::I(pr)) => set_membership_proof::verify(version, t, &s.iter().map(|x| C::scalar_from_u64(*x)).collect::<Vec<_>>(), c, pr, g, keys).is_ok(),
+            (P::NotIn(s, _), Made::N(pr)) => set_non_membership_proof::verify(version, t, &s.iter().map(|x| C::scalar_from_u64(*x)).collect::<Vec<_>>(), c, pr, g, keys).is_ok(),
+            _ => false,
+        }
+    }
+    let value = |p: &P| match p {
+        P::Range(_, v) | P::In(_, v) | P::NotIn(_, v) => *v,
+    };
+    let firsts = vec![P::Range(1, 0), P::Range(1, 1), P::In(vec![7], 7), P::NotIn(vec![9], 4), P::Range(2, 3), P::In(vec![1, 7], 7), P::In(vec![1, 7, 3, 5], 7), P::NotIn(vec![1, 7, 3], 4), P::Range(8, 200)];
+    let seconds = vec![P::Range(8, 200), P::NotIn(vec![1, 7, 3], 4), P::In(vec![1, 7, 3, 5], 7), P::Range(1, 1), P::In(vec![7], 7)];
+    let mut cases = vec![];
+    for a in &firsts {
+        for b in &seconds {
+            for v1 in [false, true] {
+                for version in [ProofVersion::Version1, ProofVersion::Version2] {
+                    cases.push((a.clone(), b.clone(), v1, version));
+                }
+            }
+        }
+    }
+    report.set_extra("proof_chains", json!(cases.len()));
+    cases.par_iter().for_each(|(a, b, v1, version)| {
+        case(report, json!({"chain": {"first": format!("{a:?}"), "second": format!("{b:?}"), "transcript": if *v1 { "V1" } else { "legacy" }, "version": format!("{version:?}")}}), || {
+            let ra = Randomness::<C>::generate(&mut rng(cli.seed, 1720));
+            let rb = Randomness::<C>::generate(&mut rng(cli.seed, 1721));
+            let (ca, cb) = (commit(&keys, value(a), &ra), commit(&keys, value(b), &rb));
+            let run = |which: usize| -> Result<(bool, bool), (String, serde_json::Value)> {
+                let _ = which;
+                if *v1 {
+                    let mut tp = TranscriptProtocolV1::with_domain("chain");
+                    let pa = prove_one(&mut tp, *version, a, cli.seed, &g, &keys, &ra).ok_or(("true-statement-not-provable".to_string(), json!({"which": "first"})))?;
+                    let pb = prove_one(&mut tp, *version, b, cli.seed + 1, &g, &keys, &rb).ok_or(("true-statement-not-provable".to_string(), json!({"which": "second"})))?;
+                    let mut tv = TranscriptProtocolV1::with_domain("chain");
+                    let oa = verify_one(&mut tv, *version, a, &pa, &g, &keys, &ca);
+                    let ob = verify_one(&mut tv, *version, b, &pb, &g, &keys, &cb);
+                    Ok((oa, ob))
+                } else {
+                    let mut tp = RandomOracle::domain("chain");
+                    let pa = prove_one(&mut tp, *version, a, cli.seed, &g, &keys, &ra).ok_or(("true-statement-not-provable".to_string(), json!({"which": "first"})))?;
+                    let pb = prove_one(&mut tp, *version, b, cli.seed + 1, &g, &keys, &rb).ok_or(("true-statement-not-provable".to_string(), json!({"which": "second"})))?;
+                    let mut tv = RandomOracle::domain("chain");
+                    let oa = verify_one(&mut tv, *version, a, &pa, &g, &keys, &ca);
+                    let ob = verify_one(&mut tv, *version, b, &pb, &g, &keys, &cb);
+                    Ok((oa, ob))
+                }
+            };
+            let (oa, ob) = run(0)?;
+            report.trace(2);
+            if !oa {
+                return fail("valid-proof-rejected", json!({"which": "first of the chain"}));
+            }
+            if !ob {
+                return fail("valid-proof-rejected", json!({"which": "second of the chain: prover and verifier transcripts diverged after the first"}));
+            }
+            Ok(())
+        });
+    });
+}
+
 pub fn run(cli: &Cli) -> ! {
     let report = Report::new(cli);
+    chains(&report, cli);
     range_grid(&report, cli);
     range_perturbations(&report, cli);
     derived_statements(&report, cli);
